@@ -20,6 +20,11 @@ IdentOf(n) == CASE n = "a" -> [s |-> <<"a">>, raw |-> FALSE]
                 [] n = "http_url_v2" -> [s |-> <<"h","t","t","p","_","u","r","l","_","v","2">>, raw |-> FALSE]
                 [] n = "user_id" -> [s |-> <<"u","s","e","r","_","i","d">>, raw |-> FALSE]
                 [] n = "id" -> [s |-> <<"i","d">>, raw |-> FALSE]
+                [] n = "ID" -> [s |-> <<"I","D">>, raw |-> FALSE]
+                [] n = "URL" -> [s |-> <<"U","R","L">>, raw |-> FALSE]
+                [] n = "API_KEY" -> [s |-> <<"A","P","I","_","K","E","Y">>, raw |-> FALSE]
+                [] n = "userName" -> [s |-> <<"u","s","e","r","N","a","m","e">>, raw |-> FALSE]
+                [] n = "HTTPServer2" -> [s |-> <<"H","T","T","P","S","e","r","v","e","r","2">>, raw |-> FALSE]
 RenameOf(n) == CASE n = "none" -> None
                  [] n = "other" -> <<"o","t","h","e","r">>
                  [] n = "fooBar" -> <<"f","o","o","B","a","r">>
@@ -41,7 +46,12 @@ Neighbour == <<"p","l","a","i","n","_","o","n","e">>
 \* every case is generated under each configuration; the JSON key never depends on it. go_acronyms: the file-only Go option
 \* uppercase_acronyms = ["ID", "URL", "API"], which re-spells Go IDENTIFIERS (UserID) - not the json tag
 Configs == {"default", "prefix", "go_acronyms"}
-Emit == (c.kind = "struct" => c.enum_rule = "none") =>
+\* Identifiers with upper-case letters are legal field names (non_snake_case is only a lint). Under the four snake / kebab rules
+\* typeshare re-splits such a field where serde leaves it alone: that defect is listed under C16 (known_findings.jsonl, pinned by
+\* snapshots) and is judged there; every other rule x upper-case identifier combination is judged here.
+SnakeFamily == {"snake_case", "SCREAMING_SNAKE_CASE", "kebab-case", "SCREAMING-KEBAB-CASE"}
+DeferredToC16 == c.rename = "none" /\ c.rule \in SnakeFamily /\ \E k \in DOMAIN IdentOf(c.ident).s : IsUpper(IdentOf(c.ident).s[k])
+Emit == ((c.kind = "struct" => c.enum_rule = "none") /\ ~DeferredToC16) =>
     PrintT(<<"REPLAY", ToJson([case |-> c, configs |-> Configs,
         keys |-> << Str(FieldWire(IdentOf(c.ident).s, RenameOf(c.rename), RuleForField(Container))),
                     Str(FieldWire(Neighbour, None, RuleForField(Container))) >>])>>)
